@@ -33,7 +33,7 @@ def fkey(x):
 
 def header():
     return {"ev": "hdr", "pi": fkey(math.pi), "npi": fkey(-math.pi), "zero": fkey(0.0), "twopi": fkey(2 * math.pi),
-            "fourpi": fkey(4 * math.pi), "one": fkey(1.0)}
+            "fourpi": fkey(4 * math.pi), "one": fkey(1.0), "halfpi": fkey(math.pi / 2), "nhalfpi": fkey(-math.pi / 2)}
 
 
 class TraceRun:
@@ -177,10 +177,11 @@ HULL_INV = ["Hemisphere", "CycleThm", "ConvexThm", "ClassThm", "ContainThm", "Em
 def c10_key(rel, info, reg):
     """Final key: strict relation + magnitude suffix (from the detail pass) + input class.  For ulp/small
     magnitudes the class is the region kind (the defect sits in the bound function shared by all
-    constructions of that kind), except for cap-bound on caps where the constructing operation matters."""
+    constructions of that kind), except for cap-bound on caps where the constructing operation matters and
+    for cells (level 0 has its own code path)."""
     cls = reg.get("cls", "?")
     kind = reg.get("kind", cls.split("/")[0])
-    if (rel.endswith("-ulp") or rel.endswith("-small")) and not (kind == "cap" and rel.startswith("cap-bound")):
+    if (rel.endswith("-ulp") or rel.endswith("-small")) and not (kind == "cap" and rel.startswith("cap-bound")) and kind != "cell":
         cls = kind
     return "c10/%s/%s" % (rel, cls)
 
